@@ -366,7 +366,9 @@ func decodeModel(m Model, e *Exec) map[string]ModelVal {
 		case "bool":
 			out[name] = ModelVal{ty, raw}
 		case "int", "int64", "int32":
-			if u, ok := modelBV(raw); ok {
+			if iv, ok := modelInt(raw); ok {
+				out[name] = ModelVal{ty, fmt.Sprint(iv)}
+			} else if u, ok := modelBV(raw); ok {
 				w := 64
 				if ty == "int32" {
 					w = 32
